@@ -48,31 +48,37 @@ impl LanguageServer {
         let stdin = tokio::io::stdin();
         let mut framed_read = FramedRead::new(stdin, io::LSCodec);
 
-        phases::initialization(&mut self, &mut framed_read, iotx.clone())
-            .await
-            .wrap_err("Unexpected error occured during initialization")?;
+        let result: Result<()> = async {
+            phases::initialization(&mut self, &mut framed_read, iotx.clone())
+                .await
+                .wrap_err("Unexpected error occured during initialization")?;
 
-        // spawn thread which handles document synchronization
-        let (doctx, docrx) = mpsc::channel(32);
-        handles.push(tokio::spawn(document::broker(
-            docrx,
-            iotx.clone(),
-            self.client_details.diagnostics,
-        )));
+            // spawn thread which handles document synchronization
+            let (doctx, docrx) = mpsc::channel(32);
+            handles.push(tokio::spawn(document::broker(
+                docrx,
+                iotx.clone(),
+                self.client_details.diagnostics,
+            )));
 
-        phases::main(&mut framed_read, iotx.clone(), doctx.clone())
-            .await
-            .wrap_err("Unexpected error occured during main phase")?;
+            phases::main(&mut framed_read, iotx.clone(), doctx.clone())
+                .await
+                .wrap_err("Unexpected error occured during main phase")?;
 
-        phases::shutdown(&mut framed_read, iotx)
-            .await
-            .wrap_err("Unexpected error occured during shutdown")?;
+            phases::shutdown(&mut framed_read, iotx.clone())
+                .await
+                .wrap_err("Unexpected error occured during shutdown")?;
+            Ok(())
+        }
+        .await;
 
-        drop(doctx);
+        // Wait until everything that is queued has been written,
+        // also if the client's stream ended with an error (e.g. in the middle of a message).
+        drop(iotx);
         for handle in handles {
             handle.await.expect("Cannot await handle");
         }
-        Ok(())
+        result
     }
 }
 
